@@ -1,6 +1,8 @@
 (* A small reference terminal for property C04: exactly the state Vaxis promises to restore.
    It is independent of /repo: mode numbers and sequence meanings follow xterm ctlseqs / ECMA-48,
-   the kitty keyboard protocol (CSI > flags u pushes, CSI < n u pops), DECSCUSR, OSC 8 / 22 / 176.
+   the kitty keyboard protocol (CSI > flags u pushes, CSI < n u pops; the main and the alternate
+   screen keep separate, independent flag stacks, push / pop act on the stack of the screen that is
+   shown), DECSCUSR, OSC 8 / 22 / 176.
    Two interpreters share the state-changing primitives:
      [iinterp]  on the items the C02 parser model ([Parser.feed]) delivers for a byte stream,
      (the token-level semantics used by the theorems is in Modes.v).
@@ -23,7 +25,8 @@ Record term := mkTerm {
   m_sixelscroll : bool;  (* ?8452  sixel scrolling leaves cursor to the right *)
   m_other : list Z;      (* any other private mode that is currently set *)
   t_keypad_app : bool;   (* ESC = / ESC > *)
-  t_kitty : list Z;      (* kitty keyboard flag stack, top first *)
+  t_kitty : list Z;      (* kitty keyboard flag stack OF THE SCREEN CURRENTLY SHOWN, top first *)
+  t_kitty_other : list Z;  (* the stack of the screen not shown (each screen keeps its own; ?1049 swaps) *)
   t_cstyle : Z;          (* DECSCUSR *)
   t_pointer : list Z;    (* OSC 22 pointer shape *)
   t_appid : list Z;      (* OSC 176 application id *)
@@ -39,50 +42,54 @@ Definition add_z (n : Z) (l : list Z) : list Z := if mem_z n l then l else l ++ 
 Definition del_z (n : Z) (l : list Z) : list Z := filter (fun x => negb (x =? n)) l.
 
 Definition set_mode (n : Z) (b : bool) (t : term) : term :=
-  let '(mkTerm ck cu bt an fo sg al pa sy un th ib ss ot ka ki cs po ap pe li ho px) := t in
-  if n =? 1 then mkTerm b cu bt an fo sg al pa sy un th ib ss ot ka ki cs po ap pe li ho px
-  else if n =? 25 then mkTerm ck b bt an fo sg al pa sy un th ib ss ot ka ki cs po ap pe li ho px
-  else if n =? 1002 then mkTerm ck cu b an fo sg al pa sy un th ib ss ot ka ki cs po ap pe li ho px
-  else if n =? 1003 then mkTerm ck cu bt b fo sg al pa sy un th ib ss ot ka ki cs po ap pe li ho px
-  else if n =? 1004 then mkTerm ck cu bt an b sg al pa sy un th ib ss ot ka ki cs po ap pe li ho px
-  else if n =? 1006 then mkTerm ck cu bt an fo b al pa sy un th ib ss ot ka ki cs po ap pe li ho px
-  else if n =? 1049 then mkTerm ck cu bt an fo sg b pa sy un th ib ss ot ka ki cs po ap pe li ho px
-  else if n =? 2004 then mkTerm ck cu bt an fo sg al b sy un th ib ss ot ka ki cs po ap pe li ho px
-  else if n =? 2026 then mkTerm ck cu bt an fo sg al pa b un th ib ss ot ka ki cs po ap pe li ho px
-  else if n =? 2027 then mkTerm ck cu bt an fo sg al pa sy b th ib ss ot ka ki cs po ap pe li ho px
-  else if n =? 2031 then mkTerm ck cu bt an fo sg al pa sy un b ib ss ot ka ki cs po ap pe li ho px
-  else if n =? 2048 then mkTerm ck cu bt an fo sg al pa sy un th (b && ho) ss ot ka ki cs po ap pe li ho px
-  else if n =? 8452 then mkTerm ck cu bt an fo sg al pa sy un th ib b ot ka ki cs po ap pe li ho px
-  else mkTerm ck cu bt an fo sg al pa sy un th ib ss (if b then add_z n ot else del_z n ot) ka ki cs po ap pe li ho px.
+  let '(mkTerm ck cu bt an fo sg al pa sy un th ib ss ot ka ki ko cs po ap pe li ho px) := t in
+  if n =? 1 then mkTerm b cu bt an fo sg al pa sy un th ib ss ot ka ki ko cs po ap pe li ho px
+  else if n =? 25 then mkTerm ck b bt an fo sg al pa sy un th ib ss ot ka ki ko cs po ap pe li ho px
+  else if n =? 1002 then mkTerm ck cu b an fo sg al pa sy un th ib ss ot ka ki ko cs po ap pe li ho px
+  else if n =? 1003 then mkTerm ck cu bt b fo sg al pa sy un th ib ss ot ka ki ko cs po ap pe li ho px
+  else if n =? 1004 then mkTerm ck cu bt an b sg al pa sy un th ib ss ot ka ki ko cs po ap pe li ho px
+  else if n =? 1006 then mkTerm ck cu bt an fo b al pa sy un th ib ss ot ka ki ko cs po ap pe li ho px
+  else if n =? 1049 then
+    (* the kitty keyboard protocol: "the main and alternate screens maintain their own, independent,
+       keyboard mode stacks" -- switching screens exchanges the two stacks, nothing is reset *)
+    if Bool.eqb al b then mkTerm ck cu bt an fo sg al pa sy un th ib ss ot ka ki ko cs po ap pe li ho px
+    else mkTerm ck cu bt an fo sg b pa sy un th ib ss ot ka ko ki cs po ap pe li ho px
+  else if n =? 2004 then mkTerm ck cu bt an fo sg al b sy un th ib ss ot ka ki ko cs po ap pe li ho px
+  else if n =? 2026 then mkTerm ck cu bt an fo sg al pa b un th ib ss ot ka ki ko cs po ap pe li ho px
+  else if n =? 2027 then mkTerm ck cu bt an fo sg al pa sy b th ib ss ot ka ki ko cs po ap pe li ho px
+  else if n =? 2031 then mkTerm ck cu bt an fo sg al pa sy un b ib ss ot ka ki ko cs po ap pe li ho px
+  else if n =? 2048 then mkTerm ck cu bt an fo sg al pa sy un th (b && ho) ss ot ka ki ko cs po ap pe li ho px
+  else if n =? 8452 then mkTerm ck cu bt an fo sg al pa sy un th ib b ot ka ki ko cs po ap pe li ho px
+  else mkTerm ck cu bt an fo sg al pa sy un th ib ss (if b then add_z n ot else del_z n ot) ka ki ko cs po ap pe li ho px.
 
 Definition set_keypad (b : bool) (t : term) : term :=
-  let '(mkTerm ck cu bt an fo sg al pa sy un th ib ss ot ka ki cs po ap pe li ho px) := t in
-  mkTerm ck cu bt an fo sg al pa sy un th ib ss ot b ki cs po ap pe li ho px.
+  let '(mkTerm ck cu bt an fo sg al pa sy un th ib ss ot ka ki ko cs po ap pe li ho px) := t in
+  mkTerm ck cu bt an fo sg al pa sy un th ib ss ot b ki ko cs po ap pe li ho px.
 Definition set_kitty (k : list Z) (t : term) : term :=
-  let '(mkTerm ck cu bt an fo sg al pa sy un th ib ss ot ka ki cs po ap pe li ho px) := t in
-  mkTerm ck cu bt an fo sg al pa sy un th ib ss ot ka k cs po ap pe li ho px.
+  let '(mkTerm ck cu bt an fo sg al pa sy un th ib ss ot ka ki ko cs po ap pe li ho px) := t in
+  mkTerm ck cu bt an fo sg al pa sy un th ib ss ot ka k ko cs po ap pe li ho px.
 Definition kitty_push (n : Z) (t : term) : term := set_kitty (n :: t_kitty t) t.
 Definition kitty_pop1 (t : term) : term := set_kitty (match t_kitty t with [] => [] | _ :: r => r end) t.
 Fixpoint kitty_pop (k : nat) (t : term) : term :=
   match k with O => t | S k' => kitty_pop k' (kitty_pop1 t) end.
 Definition set_cstyle (n : Z) (t : term) : term :=
-  let '(mkTerm ck cu bt an fo sg al pa sy un th ib ss ot ka ki cs po ap pe li ho px) := t in
-  mkTerm ck cu bt an fo sg al pa sy un th ib ss ot ka ki n po ap pe li ho px.
+  let '(mkTerm ck cu bt an fo sg al pa sy un th ib ss ot ka ki ko cs po ap pe li ho px) := t in
+  mkTerm ck cu bt an fo sg al pa sy un th ib ss ot ka ki ko n po ap pe li ho px.
 Definition set_pointer (s : list Z) (t : term) : term :=
-  let '(mkTerm ck cu bt an fo sg al pa sy un th ib ss ot ka ki cs po ap pe li ho px) := t in
-  mkTerm ck cu bt an fo sg al pa sy un th ib ss ot ka ki cs s ap pe li ho px.
+  let '(mkTerm ck cu bt an fo sg al pa sy un th ib ss ot ka ki ko cs po ap pe li ho px) := t in
+  mkTerm ck cu bt an fo sg al pa sy un th ib ss ot ka ki ko cs s ap pe li ho px.
 Definition set_appid (s : list Z) (t : term) : term :=
-  let '(mkTerm ck cu bt an fo sg al pa sy un th ib ss ot ka ki cs po ap pe li ho px) := t in
-  mkTerm ck cu bt an fo sg al pa sy un th ib ss ot ka ki cs po s pe li ho px.
+  let '(mkTerm ck cu bt an fo sg al pa sy un th ib ss ot ka ki ko cs po ap pe li ho px) := t in
+  mkTerm ck cu bt an fo sg al pa sy un th ib ss ot ka ki ko cs po s pe li ho px.
 Definition set_pen (b : bool) (t : term) : term :=
-  let '(mkTerm ck cu bt an fo sg al pa sy un th ib ss ot ka ki cs po ap pe li ho px) := t in
-  mkTerm ck cu bt an fo sg al pa sy un th ib ss ot ka ki cs po ap b li ho px.
+  let '(mkTerm ck cu bt an fo sg al pa sy un th ib ss ot ka ki ko cs po ap pe li ho px) := t in
+  mkTerm ck cu bt an fo sg al pa sy un th ib ss ot ka ki ko cs po ap b li ho px.
 Definition set_link (b : bool) (t : term) : term :=
-  let '(mkTerm ck cu bt an fo sg al pa sy un th ib ss ot ka ki cs po ap pe li ho px) := t in
-  mkTerm ck cu bt an fo sg al pa sy un th ib ss ot ka ki cs po ap pe b ho px.
+  let '(mkTerm ck cu bt an fo sg al pa sy un th ib ss ot ka ki ko cs po ap pe li ho px) := t in
+  mkTerm ck cu bt an fo sg al pa sy un th ib ss ot ka ki ko cs po ap pe b ho px.
 Definition poison (t : term) : term :=
-  let '(mkTerm ck cu bt an fo sg al pa sy un th ib ss ot ka ki cs po ap pe li ho px) := t in
-  mkTerm ck cu bt an fo sg al pa sy un th ib ss ot ka ki cs po ap pe li ho true.
+  let '(mkTerm ck cu bt an fo sg al pa sy un th ib ss ot ka ki ko cs po ap pe li ho px) := t in
+  mkTerm ck cu bt an fo sg al pa sy un th ib ss ot ka ki ko cs po ap pe li ho true.
 
 (* ---------- SGR ---------- *)
 (* CSI m / CSI 0 m restore the default rendition.  SGR arguments that only switch one attribute
@@ -212,6 +219,7 @@ Definition term_eqb (a b : term) : bool :=
   && Bool.eqb (m_unicode a) (m_unicode b) && Bool.eqb (m_theme a) (m_theme b) && Bool.eqb (m_inband a) (m_inband b)
   && Bool.eqb (m_sixelscroll a) (m_sixelscroll b) && zlist_eqb (m_other a) (m_other b)
   && Bool.eqb (t_keypad_app a) (t_keypad_app b) && zlist_eqb (t_kitty a) (t_kitty b)
+  && zlist_eqb (t_kitty_other a) (t_kitty_other b)
   && (t_cstyle a =? t_cstyle b) && zlist_eqb (t_pointer a) (t_pointer b) && zlist_eqb (t_appid a) (t_appid b)
   && Bool.eqb (t_pen_default a) (t_pen_default b) && Bool.eqb (t_link_open a) (t_link_open b)
   && Bool.eqb (t_honours_inband a) (t_honours_inband b) && Bool.eqb (t_poison a) (t_poison b).
@@ -219,8 +227,10 @@ Definition term_eqb (a b : term) : bool :=
 (* ---------- the terminal before Vaxis starts ---------- *)
 (* Every mode Vaxis manages is at its power-on value (cursor visible, everything else reset,
    primary screen, numeric keypad, default rendition, no hyperlink, pointer shape "text").  What
-   is arbitrary: the kitty keyboard stack, the cursor style, the application id, other modes. *)
+   is arbitrary: the kitty keyboard stack of the main screen (the one shown: [kitty]) and the one of
+   the alternate screen ([kitty_alt], whatever an earlier full-screen program left there), the
+   cursor style, the application id, other modes. *)
 Definition text_shape : list Z := [116; 101; 120; 116].
-Definition fresh_term (other kitty : list Z) (cstyle : Z) (appid : list Z) (honours : bool) : term :=
+Definition fresh_term (other kitty kitty_alt : list Z) (cstyle : Z) (appid : list Z) (honours : bool) : term :=
   mkTerm false true false false false false false false false false false false false other
-         false kitty cstyle text_shape appid true false honours false.
+         false kitty kitty_alt cstyle text_shape appid true false honours false.
